@@ -208,8 +208,10 @@ func forgedMultiOffenders(rng *rand.Rand) []*Target {
 	// ---- the generic duplicate-and-vary recipes
 	stride := 6
 	full := os.Getenv("VERIF_MULTI_FULL") == "1" // every template, every attribute (C02: each input is linted once)
-	if tier == "thorough" || full {
+	if full {
 		stride = 1
+	} else if tier == "thorough" {
+		stride = 2
 	}
 	for ci, o := range c.Certs {
 		onion := false
